@@ -72,7 +72,7 @@ def ext_read(E, args, node):
     E.assume(z3.And(r.t >= -1, r.t <= zt(n)))
     E.havoc_cell(blk, shape)                      # over-approximation: the whole buffer holds arbitrary octets afterwards
     arr = E.get_cell(E.state, blk, shape)
-    E.state.ghost["datagram"] = {"array": arr, "base": lin, "len": r.t, "block": blk, "shape": shape}
+    E.state.ghost["datagram"] = {"array": arr, "base": lin, "len": r.t, "block": blk, "shape": shape, "count": zt(n)}     # count: what the caller asked for
     hook = getattr(E, "read_hook", None)
     if hook is not None:
         hook(E, arr, lin, r.t)         # the contract's assumption about the datagram (who sent it, in which format)
